@@ -216,6 +216,9 @@ func tryCreateTimestamp(ts []int, nsecs int, overflow bool, offset, sign int64, 
 	}
 
 	if precision <= TimestampPrecisionDay {
+		if !isIonYear(date.Year()) {
+			return Timestamp{}, fmt.Errorf("ion: invalid timestamp")
+		}
 		return NewDateTimestamp(date, precision), nil
 	}
 
@@ -224,6 +227,9 @@ func tryCreateTimestamp(ts []int, nsecs int, overflow bool, offset, sign int64, 
 	}
 
 	if offset == 0 {
+		if !isIonYear(date.Year()) {
+			return Timestamp{}, fmt.Errorf("ion: invalid timestamp")
+		}
 		if sign == -1 {
 			// Negative zero timezone offset is Unspecified
 			return NewTimestampWithFractionalSeconds(date, precision, TimezoneUnspecified, fractionPrecision), nil
@@ -234,9 +240,18 @@ func tryCreateTimestamp(ts []int, nsecs int, overflow bool, offset, sign int64, 
 	}
 
 	date = date.In(time.FixedZone("fixed", int(offset)*60))
+	// The fields above are UTC, so they may name year 0 or 10000; the local year may not.
+	if !isIonYear(date.Year()) {
+		return Timestamp{}, fmt.Errorf("ion: invalid timestamp")
+	}
 
 	// Non-zero offset is Local
 	return NewTimestampWithFractionalSeconds(date, precision, TimezoneLocal, fractionPrecision), nil
+}
+
+// IsIonYear reports whether year is one an Ion timestamp can have (0001 to 9999).
+func isIonYear(year int) bool {
+	return year >= 1 && year <= 9999
 }
 
 // MustParseTimestamp parses the given string into an ion timestamp object,
